@@ -135,6 +135,12 @@ fn main() {
             node::install_panic_counter(false);
             let v: serde_json::Value = serde_json::from_slice(&std::fs::read(&args[2]).expect("replay file")).expect("json");
             let prop = v["property"].as_str().unwrap_or("").to_string();
+            let kind = v["replay"]["kind"].as_str().unwrap_or("").to_string();
+            if !props::replayable(&kind) {
+                // enumeration checks: the failing input is in the message; the case is decided again by the check itself
+                println!("MACHINERY-ERROR violations of kind '{kind}' have no single-case replay: run ./check {prop} --tier quick again (the case is named in the message: {})", v["message"].as_str().unwrap_or(""));
+                std::process::exit(2);
+            }
             let a = props::replay(&prop, &v["replay"]);
             let b = props::replay(&prop, &v["replay"]);
             let ka: Vec<_> = a.iter().map(|x| x.key.clone()).collect();
